@@ -274,7 +274,7 @@ def _go_decls(src):
 
 
 def harness_subset(pid):
-    """the harness files a property needs: its own files + main.go + rng.go, closed under use of identifiers
+    """the harness files a property needs: its own files + main.go + rng.go + watchdog.go, closed under use of identifiers
        declared at top level in other harness files (an over-approximation by token)"""
     h = os.path.join(VERIF, "harness")
     files = sorted(f for f in os.listdir(h) if f.endswith(".go"))
@@ -285,7 +285,7 @@ def harness_subset(pid):
     for f in files:
         for n in decl[f]:
             owner.setdefault(n, f)
-    need = {f for f in files if f in ("main.go", "rng.go") or f == pid.lower() + ".go" or f.startswith(pid.lower() + "_")}
+    need = {f for f in files if f in ("main.go", "rng.go", "watchdog.go") or f == pid.lower() + ".go" or f.startswith(pid.lower() + "_")}
     changed = True
     while changed:
         changed = False
@@ -307,7 +307,7 @@ def harness_subset_build(h, pid, spath):
     for f in all_files:
         for n in decl[f]:
             owner.setdefault(n, f)
-    need = [f for f in all_files if f in ("main.go", "rng.go") or f == pid.lower() + ".go" or f.startswith(pid.lower() + "_")]
+    need = [f for f in all_files if f in ("main.go", "rng.go", "watchdog.go") or f == pid.lower() + ".go" or f.startswith(pid.lower() + "_")]
     for _ in range(40):
         rc, out = _go_build(h, "verif", spath, need)
         if rc == 0:
